@@ -21,10 +21,10 @@ META = dict(
            "(regex: matched on the text with every symbolic digit replaced by a placeholder digit; only digit-agnostic patterns are accepted)",
            "CPython float formatting -> exact scaled-integer rounding into symbolic digits (validated in C12)",
            "np.array/np.empty/astype on symbolic values -> object arrays (AST hook astype)"],
-    outside=["wtdmig/rddmig (pandas index machinery)", "wtgrids/rdgrids, wtcoordcards/rdcord2cards, uset2bulk/bulk2uset (DataFrame-based; their number fields are C12's subject)",
+    outside=["wtdmig/rddmig (pandas index machinery)", "wtgrids/rdgrids, rdcord2cards' build_coords step, uset2bulk/bulk2uset (DataFrame-based; their number fields are C12's subject); CORD2x cards are read back with rdcards (ids symbolic, A/B/C concrete)",
              "INCLUDE handling"],
     assumptions=["ids are 3-digit integers in [100, 899] (digit count does not fork); list lengths bounded as stated"],
-    reach_required=["thru-run", "singleton", "line-wrap", "set-wrap", "tabled1-partial-line", "tabled1-short", "nasints-continuation"],
+    reach_required=["cord2", "thru-run", "singleton", "line-wrap", "set-wrap", "tabled1-partial-line", "tabled1-short", "nasints-continuation"],
     trusted_base=["z3 5.1", "CPython 3.12", "digit-string model of float formatting (see C12)"],
 )
 
@@ -430,7 +430,88 @@ def replay_tabled1(p):
     return False, "tabled1 round trip fine"
 
 
-REPLAY = {"ids": replay_ids, "tabled1": replay_tabled1}
+# ---------------------------------------------------------------------------
+# CORD2x cards: wtcoordcards -> rdcards; the coordinate-system id and its reference id are symbolic
+
+class _DArr(np.ndarray):
+    """object array whose comparisons give NumPy boolean masks"""
+
+    def _cmp(self, o, f):
+        a = np.asarray(self)
+        ob = np.broadcast_to(np.asarray(o, dtype=object), a.shape)
+        out = np.zeros(a.shape, bool)
+        for idx in np.ndindex(*a.shape):
+            out[idx] = bool(f(a[idx], ob[idx]))
+        return out
+
+    def __lt__(self, o):
+        return self._cmp(o, lambda x, y: x < y)
+
+    def __gt__(self, o):
+        return self._cmp(o, lambda x, y: x > y)
+
+
+CORD_ABC = {"CORD2R": [[1.5, -2.25, 0.0], [1.5, -2.25, 10.0], [4.0, 0.5, 1e-30]],
+            "CORD2C": [[0.0, 0.0, 0.0], [0.0, 0.0, 1.0], [1.0, 0.0, 0.0]],
+            "CORD2S": [[-3.0e5, 12.5, 7.0e-4], [2.0, 2.0, 2.0], [0.125, -8.0, 1.0e3]]}
+
+
+def coord_fn(name):
+    @_guard(dict(which="coord", name=name))
+    def fn(eng):
+        S.set_engine(eng)
+        g = loaded()
+        import pyyeti.nastran.bulk as b
+        if "wtcoordcards" not in _L.setdefault("extra", set()):
+            astload.load(getattr(b.wtcoordcards, "__wrapped__", b.wtcoordcards), hooks=("fstring", "format", "mod", "astype", "join"), globs=g)
+            _L["extra"].add("wtcoordcards")
+        cid, rid = z3.Int("cid"), z3.Int("rid")
+        eng.assume(z3.And(cid >= 100, cid <= 899, rid >= 100, rid <= 899))
+        info = dict(which="coord", name=name)
+        abc = CORD_ABC[name]
+        coord = np.empty((4, 3), dtype=object)
+        coord[0] = [X.SymInt(cid, hint=2), float(["CORD2R", "CORD2C", "CORD2S"].index(name) + 1), X.SymInt(rid, hint=2)]
+        coord[1:] = abc
+        sink = _Sink()
+        g["wtcoordcards"](sink, {X.SymInt(cid, hint=2): [name, coord.view(_DArr)]})
+        lines = sink.lines()
+        eng.tag("cord2")
+        obls = _line_obls(lines, "cord2", info, eng, 80)
+        cards = g["rdcards"](_Lines(lines), name.lower(), return_var="list", keep_name=True, blank=0)
+        ok = cards is not None and len(cards) == 1 and len(cards[0]) == 12
+        obls.append(E.Obl("%s: one card of 12 fields read back (%s)" % (name, None if cards is None else [len(c) for c in cards]), ok, info=info))
+        if not ok:
+            return obls
+        c = cards[0]
+        obls.append(E.Obl("%s: card name" % name, str(c[0]).rstrip("*") == name, info=info))
+        obls.append(E.Obl("%s: coordinate system id read back as written" % name, S.lift(c[1]) == cid if isinstance(c[1], S.SymR) else False, info=info))
+        obls.append(E.Obl("%s: reference system id read back as written" % name, S.lift(c[2]) == rid if isinstance(c[2], S.SymR) else z3.IntVal(int(c[2])) == rid, info=info))
+        flat = [v for row in abc for v in row]
+        big = max(abs(v) for v in flat)
+        for k, (got, want) in enumerate(zip(c[3:], flat)):
+            good = (not isinstance(got, S.SymR)) and (abs(float(got) - want) <= 1e-8 * abs(want) or (abs(want) < big * 1e-15 and float(got) == 0.0))
+            obls.append(E.Obl("%s: %s[%d] read back to the 9 digits written (%r vs %r)" % (name, "ABC"[k // 3], k % 3, got, want), good, info=info))
+        return obls
+    return fn
+
+
+def replay_coord(p):
+    import io
+    import pyyeti.nastran.bulk as b
+    mdl = p["model"]
+    cid = int(mdl.get("cid", 101) or 101)
+    rid = int(mdl.get("rid", 202) or 202)
+    name = p["name"]
+    coord = np.vstack(([cid, ["CORD2R", "CORD2C", "CORD2S"].index(name) + 1, rid], CORD_ABC[name]))
+    f = io.StringIO()
+    b.wtcoordcards(f, {cid: [name, coord]})
+    cards = b.rdcards(io.StringIO(f.getvalue()), name.lower(), return_var="list", keep_name=True, blank=0)
+    if not cards or len(cards[0]) != 12 or cards[0][1] != cid or cards[0][2] != rid:
+        return True, "wtcoordcards(%s %d referring to system %d) is read back by rdcards as %s" % (name, cid, rid, cards[0][:3] if cards else cards)
+    return False, "CORD2x card fine on the real code"
+
+
+REPLAY = {"ids": replay_ids, "tabled1": replay_tabled1, "coord": replay_coord}
 
 
 def job(kind, *args, split_depth=None, roots=None):
@@ -445,6 +526,9 @@ def job(kind, *args, split_depth=None, roots=None):
     elif kind == "set":
         fn = set_fn(*args)
         which = "set"
+    elif kind == "coord":
+        fn = coord_fn(*args)
+        which = "coord"
     else:
         fn = tabled1_fn(*args)
         which = "tabled1"
@@ -460,7 +544,8 @@ def job(kind, *args, split_depth=None, roots=None):
         d = dict(info)
         d["model"] = c["model"]
         return d
-    H.triage(res, "tabled1" if which == "tabled1" else "ids", REPLAY["tabled1" if which == "tabled1" else "ids"], payload)
+    rk = which if which in ("tabled1", "coord") else "ids"
+    H.triage(res, rk, REPLAY[rk], payload)
     return res
 
 
@@ -474,6 +559,8 @@ def jobs(tier, seed):
         out.append(H.Job("nasints-%s" % which, job, "nasints", which, 20 if q else 40, weight=50))
     for L, ml in ((4, 72), (6, 30), (7, 24)) if q else ((4, 72), (6, 30), (7, 24), (9, 40), (10, 72), (8, 20)):
         out.append(H.Job("set-%d-%d" % (L, ml), job, "set", L, ml, weight=2 ** L))
+    for nm in CORD_ABC:
+        out.append(H.Job("coord-%s" % nm, job, "coord", nm, weight=5))
     out.append(H.Job("tabled1-small", job, "tabled1", "small", 6 if q else 9, weight=200))
     out.append(H.Job("tabled1-large", job, "tabled1", "large", 4 if q else 7, weight=200))
     return out
@@ -483,6 +570,6 @@ def extra_coverage(results):
     import pyyeti.nastran.bulk as b
     import pyyeti.writer as w
     fns = [b._find_sequence, b._wt_with_thru, b.wtspoints, b.rdspoints, b.wtxset1, b.wtspc1, b.wtnasints, b.wtcsuper, b.rdcsupers, b.wtextrn, b.rdextrn,
-           b.wtset, b._wrap_text_lines, b.rdsets, b._rdset, b._rd_set_line, b.wttabled1, b.rdtabled1, b.rdcards, b._rdfixed, b.wtcard8, w.vecwrite, w._vecwrite]
+           b.wtset, b._wrap_text_lines, b.rdsets, b._rdset, b._rd_set_line, b.wttabled1, b.rdtabled1, b.wtcoordcards, b.rdcards, b._rdfixed, b.wtcard8, w.vecwrite, w._vecwrite]
     return dict(functions_encoded=[H.fn_id(getattr(f, "__wrapped__", f)) for f in fns],
                 ast_hook_hits={"%s:%s" % k: v for k, v in astload.HITS.items()})
